@@ -20,7 +20,8 @@ def main():
             except Exception as e:  # noqa
                 print("skip", f, e)
                 continue
-            m = getattr(mod, "MODELLED", None)
+            m = [x for x in (getattr(mod, "MODELLED", None) or []) if isinstance(x, str) and x.count(":") == 1] \
+                or core.anchor_functions(f[:-3].upper())
             if m:
                 fp = core.current_fingerprints(m)
                 missing = [k for k, v in fp.items() if v is None]
